@@ -215,6 +215,48 @@ def run(ctx):
     cl_ = ctx.fn("nessai.flows.utils:create_linear_transform")
     ctx.ob("R-PAIR", "C08.7", cl_, "the LU transform is built with its cache enabled (which is why resets must invalidate it)", any(isinstance(c_, ast.Call) and (call_name(c_) or "").endswith("LULinear") and any(k.arg == "using_cache" and isinstance(k.value, ast.Constant) and k.value.value is True for k in c_.keywords) for c_ in ast.walk(cl_.node)), "")
     ctx.floor("C08.7", 2)
+
+    # ---- C08.8 every sub-module is a registered child ------------------------------------------------------------
+    # FlowModel / the proposals make a flow deterministic with model.eval() (and move / save it with .to() / state_dict());
+    # torch reaches only *registered* children: an attribute holding a plain list / tuple / dict of modules hides them, so
+    # dropout or batch-norm layers kept that way stay in training mode and log_prob no longer matches sample_and_log_prob.
+    # In every torch module class of the package (an nn.Module / Distribution / Transform base somewhere in the MRO), a
+    # container of freshly built modules stored on self is an nn.ModuleList / ModuleDict / Sequential.
+    def _module_class(c_):
+        return any(b_.split(".")[-1] in ("Module", "Distribution", "Transform", "Flow", "CompositeTransform") for k_ in prog.mro(c_) for b_ in k_.ext_bases)
+
+    def _builds_module(e_):
+        for c_ in ast.walk(e_):
+            if isinstance(c_, ast.Call):
+                d_ = src(c_.func)
+                if d_.startswith(("nn.", "torch.nn.", "transforms.")) and d_.split(".")[-1][:1].isupper():
+                    return d_
+                r_ = prog.resolve_expr(mod_, c_.func) if isinstance(c_.func, (ast.Name, ast.Attribute)) else None
+                if r_ and r_[0] == "class" and _module_class(r_[1]):
+                    return d_
+        return None
+
+    n_cont = n_reg = 0
+    for c_ in prog.classes.values():
+        if not _module_class(c_):
+            continue
+        mod_ = c_.module
+        for m_ in c_.methods.values():
+            for s_ in walk_no_nested(m_.node):
+                if not (isinstance(s_, ast.Assign) and any(isinstance(t_, ast.Attribute) and isinstance(t_.value, ast.Name) and t_.value.id == "self" for t_ in s_.targets)):
+                    continue
+                v_ = s_.value
+                if isinstance(v_, ast.Call) and src(v_.func).split(".")[-1] in ("ModuleList", "ModuleDict", "Sequential"):
+                    n_reg += 1
+                    continue
+                if isinstance(v_, (ast.List, ast.Tuple, ast.ListComp, ast.GeneratorExp, ast.Dict, ast.DictComp, ast.SetComp)) or (isinstance(v_, ast.Call) and src(v_.func) in ("list", "tuple", "dict")):
+                    built_ = _builds_module(v_)
+                    if built_:
+                        n_cont += 1
+                        ctx.ob("R-REG", "C08.8", m_, "a container of sub-modules stored on a torch module is a registered container (nn.ModuleList / ModuleDict / Sequential), so eval() / to() / state_dict() reach its members", False, f"`{src(s_)[:90]}` holds `{built_}(...)` in a plain Python container", node=s_)
+    ctx.ob("R-REG", "C08.8", "nessai.flows", "every container of sub-modules stored on a torch module of the package was examined", True, f"{n_reg} registered containers (nn.ModuleList / Sequential), {n_cont} plain containers of modules")
+    ctx.require(n_reg + n_cont >= 1, "no container of sub-modules found in the package's torch modules (MLP._hidden_layers expected)")
+    ctx.floor("C08.8", 1)
     ctx.assumptions += ["invertibility and normalisation of the glasflow transforms, float tolerances and trained-weight behaviour are not decided", "direction table of map names (sa/rules/sign.py): forward/rescale/to_prime/_transform are data->latent, inverse/inverse_rescale/from_prime are latent->data"]
 
 
@@ -307,6 +349,7 @@ _FM = "nessai/flowmodel/base.py"
 _FP = "nessai/proposal/flowproposal.py"
 _IP = "nessai/proposal/importance.py"
 MUTANTS = [
+    {"id": "dropout-layers-in-plain-list", "file": "nessai/flows/nets.py", "old": "        self._dropout_layers = nn.ModuleList(\n            nn.Dropout(dropout_probability)\n            for _ in range(len(self._hidden_layers))\n        )", "new": "        self._dropout_layers = [\n            nn.Dropout(dropout_probability) for _ in self._hidden_layers\n        ]", "expect": "registered container"},
     {"id": "density-evaluated-at-latent-point", "file": "nessai/experimental/flowmodel/clustering.py", "old": "        z, _ = super().forward_and_log_prob(x, conditional=cluster_labels)\n        log_prob = self.log_prob(x)\n        return z, log_prob", "new": "        x, _ = super().forward_and_log_prob(x, conditional=cluster_labels)\n        log_prob = self.log_prob(x)\n        return x, log_prob", "expect": "data-space point"},
     {"id": "base-density-of-data-point", "file": "nessai/flowmodel/base.py", "old": "                log_prob = log_prob_fn(z)\n                x, log_J = self.model.inverse(z, context=conditional)", "new": "                x, log_J = self.model.inverse(z, context=conditional)\n                log_prob = self.model.base_distribution_log_prob(x)", "expect": "C08"},
     {"id": "density-buffer-hard-coded-float32", "file": "nessai/flowmodel/importance.py", "old": "        log_prob = torch.empty(x.shape[0], n)\n", "new": "        log_prob = torch.empty(x.shape[0], n, dtype=torch.float32, device=x.device)\n", "expect": "hard-coded narrow precision"},
